@@ -1,0 +1,13 @@
+//go:build verif
+
+package scan
+
+// Read-only accessors for the verification harness of the target generators (built only with -tags verif).
+
+// VerifRequestGenerator returns the request generator a packet source was built from.
+func VerifRequestGenerator(ps PacketSource) RequestGenerator {
+	if s, ok := ps.(*packetSource); ok {
+		return s.reqgen
+	}
+	return nil
+}
